@@ -24,7 +24,9 @@ STR_FULL = ["", "1", "1.0", "true", "false", "null", "no", "on", "~", " ", " a "
             "@a", "`a`", "a\tb", "  two", "two  ", "<![CDATA[x]]>", "<!--c-->", "&amp;", "=", "y", "N", "2001-01-01", "1:30",
             " ", "a" * 200, "|", ">", "﻿x", "x﻿"]
 NUM_FULL = [None, True, False, 0, 1, -1, 2 ** 31, 2 ** 63 - 1, -2 ** 63, 2 ** 64, 10 ** 30, 0.0, -0.0, 1.5, 1e16, 1e-7,
-            float("inf"), float("-inf"), float("nan"), 1e300, 5e-324, 0.1 + 0.2, 1234567.891, 100.0, 1e22, 123456789012345680.0]
+            float("inf"), float("-inf"), float("nan"), 1e300, 5e-324, 0.1 + 0.2, 1234567.891, 100.0, 1e22, 123456789012345680.0,
+            # fractional mantissa with an exponent, exponents ending in 0, negative values
+            1.5e+20, 2.5e-10, 6.02e+230, -1.25e+100, 1.5e-300, 1.05e+30, -2.5e-05, 3.0e+100, 120000.0, 1.0e-10]
 A_FULL = NUM_FULL + STR_FULL
 A_SMALL = [None, True, 0, 1, 1.0, "", "1", "true", "null", " a ", "<&>", "é"]
 A_MID = A_SMALL + [False, -1, 2 ** 31, 1e16, float("nan"), float("inf"), "a\nb", "]]>", "- x", "k: v", "~", " ", "#c"]
@@ -186,6 +188,12 @@ def canon(t):
 
 # ---------------------------------------------------------------------------------------------
 def bounds(tier):
+    b = _bounds(tier)
+    b["long_lived_format_objects"] = "one per row and job; every %dth (tree, row) in enumeration order goes through it as well" % REUSE_EVERY
+    return b
+
+
+def _bounds(tier):
     if tier == "thorough":
         return {"max_nodes": 4, "leaf_alphabet_by_leaf_count": {"1": "full(%d)" % len(A_FULL), "2": "full x full", "3": "mid(%d)^3" % len(A_MID),
                                                                  "4": "tiny(%d)^4" % len(A_TINY)}, "rows": len(ROWS)}
@@ -285,6 +293,11 @@ def _interesting(t):
     return not (isinstance(t, str) and re.fullmatch(r"[a-z]+", t))
 
 
+REUSE_EVERY = 5      # the long-lived format objects see every 5th (tree, row) of a job, in enumeration order
+_COUNT = [0]
+LONG_LIVED = {}      # one format object per row for the whole job: encodes and decodes every tree after the fresh one did
+
+
 def check_tree(ctx, cfg, tree):
     import cincoconfig as cc
     from mc import values as V
@@ -314,6 +327,26 @@ def check_tree(ctx, cfg, tree):
         if got != want:
             ctx.violation("C04|%s|mismatch|%s" % (row, _diffkind(tree, back)),
                           "%s: %s decoded as %s" % (row, V.show(tree, 80), V.show(back, 80)),
+                          {"tree": V.enc(tree), "job": "tree"}, size=len(repr(tree)))
+            continue
+        # the same through a format object that has already encoded / decoded other trees (and this one, twice)
+        _COUNT[0] += 1
+        if _COUNT[0] % REUSE_EVERY:
+            continue
+        try:
+            if row not in LONG_LIVED:
+                LONG_LIVED[row] = cc.ConfigFormat.get(fmt, **opts)
+            old = LONG_LIVED[row]
+            old.dumps(cfg, tree)
+            back2 = old.loads(cfg, old.dumps(cfg, tree))
+            back3 = cc.ConfigFormat.get(fmt, **opts).loads(cfg, old.dumps(cfg, tree))
+        except Exception as exc:  # noqa
+            ctx.violation("C04|%s|reused-format-object|raises-%s" % (row, type(exc).__name__),
+                          "%s: a format object that was used before raised %r on %s" % (row, exc, V.show(tree, 80)), {"tree": V.enc(tree), "job": "tree"}, size=len(repr(tree)))
+            continue
+        if canon(back2) != want or canon(back3) != want:
+            ctx.violation("C04|%s|reused-format-object|mismatch" % row,
+                          "%s: through a format object that was used before, %s decodes as %s / %s" % (row, V.show(tree, 80), V.show(back2, 60), V.show(back3, 60)),
                           {"tree": V.enc(tree), "job": "tree"}, size=len(repr(tree)))
     ctx.traces += 1
 
